@@ -68,7 +68,24 @@ func c10(cx *Ctx, r *ev.Report) {
 	r.AddFloor("package_level_variables", nglob, 1)
 
 	// 2. effects of Step and Run
-	eff := rules.ComputeEffects(cx.P, fns)
+	// functions below Step/Run, plus the function literals package initialisation
+	// builds into tables (they run below Step through those tables)
+	var withLits []*ssa.Function
+	withLits = append(withLits, fns...)
+	seenLit := map[*ssa.Function]bool{}
+	for _, f := range fns {
+		seenLit[f] = true
+	}
+	for f := range all {
+		top := f
+		for top.Parent() != nil {
+			top = top.Parent()
+		}
+		if f.Parent() != nil && initFns[top] && !seenLit[f] && load.InModule(f) && pkgPathOf(top) == load.ModulePath {
+			withLits = append(withLits, f)
+		}
+	}
+	eff := rules.ComputeEffectsInit(cx.P, withLits, initFns)
 	ruleE := "R-EFFECTS(Step,Run): every store below Step/Run targets a location rooted in a parameter (the receiver, a pointer argument) or a local/captured cell; no package-level variable is written; no map update, channel send"
 	var det []string
 	det = append(det, eff.GlobalStores...)
@@ -120,7 +137,7 @@ func c10(cx *Ctx, r *ev.Report) {
 			}
 		}
 		if strings.HasPrefix(name, "sync/atomic.") || strings.HasPrefix(name, "(*sync/atomic.") || strings.HasPrefix(name, "math/bits.") ||
-			absint.PureLibrary(name) || strings.HasPrefix(name, "log.Print") || strings.HasPrefix(name, "context.With") || name == "context.AfterFunc" {
+			absint.PureLibrary(name) || absint.PlainLibraryCode(name) || strings.HasPrefix(name, "log.Print") || strings.HasPrefix(name, "context.With") || name == "context.AfterFunc" {
 			ok = true
 		}
 		if !ok {
